@@ -174,6 +174,10 @@ impl Gen for HashMap<String, String> {
             set("{k:'a,b'}", mk(&[("k", "a,b")])),
             set("{key-with-dash:%41+}", mk(&[("key-with-dash", "%41+")])),
             set("{k:255}", mk(&[("k", &"m".repeat(255))])),
+            // keys whose own text begins with the family's prefix, or is another header's name
+            set("{x-amz-meta-color:red}", mk(&[("x-amz-meta-color", "red")])),
+            set("{x-amz-meta-color:red,color:blue}", mk(&[("x-amz-meta-color", "red"), ("color", "blue")])),
+            set("{content-type:x,x-amz-acl:y}", mk(&[("content-type", "x"), ("x-amz-acl", "y")])),
         ]
     }
 }
